@@ -76,7 +76,7 @@ def gen_request(rng, last=False):
 	r.version = rng.choice([(1, 1), (1, 1), (1, 1), (1, 0)])
 	has_body = rng.random() < 0.5
 	r.method = rng.choice(METHODS_BODY if has_body else METHODS_NOBODY)
-	host = rng.choice([b'example.com', b'h', b'a.b.c:8080', b'127.0.0.1', b'[::1]', b'[2001:db8::1]:81', b'h:80'])
+	host = rng.choice([b'example.com', b'h', b'a.b.c:8080', b'127.0.0.1', b'[::1]', b'[2001:db8::1]:81', b'h:80', b'example.com.', b'Example.COM.:8080'])
 	r.host = host
 	form = rng.choice(['origin', 'origin', 'origin', 'absolute', 'asterisk' if not has_body else 'origin', 'authority' if not has_body else 'origin'])
 	if form == 'origin':
@@ -109,7 +109,7 @@ def gen_request(rng, last=False):
 	if has_body and r.version == (1, 1) and rng.random() < 0.5:
 		r.framing = 'chunked'
 		if rng.random() < 0.4:
-			r.trailers = [(rng.choice([b'X-Checksum', b'X-T2', b'Expires']), rng.choice([b'abc', b'1', b'x y', b''])) for _ in range(rng.randrange(1, 3))]
+			r.trailers = [(rng.choice([b'X-Checksum', b'X-T2', b'Expires', b'Host-Checksum', b'Hostname', b'Trailer-Signature', b'Content-Length-Orig', b'Transfer-Encoding-Hint']), rng.choice([b'abc', b'1', b'x y', b''])) for _ in range(rng.randrange(1, 3))]
 			names = []
 			for n, _v in r.trailers:
 				if n not in names:
